@@ -116,9 +116,16 @@ inline const char* status_name(nop::ErrorStatus e) {
 
 }  // namespace nopv
 
+#if defined(__SANITIZE_ADDRESS__) || defined(__SANITIZE_THREAD__)
+#define NOPV_HAVE_SANITIZER 1
 extern "C" void __sanitizer_set_death_callback(void (*callback)(void));
+#endif
 // libubsan has its own runtime copy under g++: its reports come through this hook
 extern "C" __attribute__((used)) inline void __ubsan_on_report(void) { nopv::on_death(); }
 namespace nopv {
-inline void install_death_hooks() { __sanitizer_set_death_callback(on_death); }
+inline void install_death_hooks() {
+#ifdef NOPV_HAVE_SANITIZER
+  __sanitizer_set_death_callback(on_death);
+#endif
+}
 }
